@@ -116,7 +116,21 @@ def spec_qm(r, big=False):
     n = len(labels)
     vts = []
     for _ in range(n):
-        vt = r.choice(['BINARY', 'SPIN', 'INTEGER', 'INTEGER', 'REAL'])
+        prev = vts[-1] if vts else None
+        if prev is not None and prev[1] is not None and r.random() < .55:
+            # a neighbour of the previous variable: same vartype, and the bounds related to its bounds -- an identical record
+            # (runs of equal records), one bound shared and the other different (both directions), or both different
+            vt, plb, pub = prev
+            step = (lambda: float(r.choice([1, 2, 5, 7]))) if vt == 'INTEGER' else (lambda: r.choice([0.25, 0.5, 1.5, 4.0]))
+            how = r.choice(['same', 'same', 'lower differs', 'lower differs', 'upper differs', 'upper differs', 'both differ'])
+            lb, ub = plb, pub
+            if how in ('lower differs', 'both differ'):
+                lb = plb - step()
+            if how in ('upper differs', 'both differ'):
+                ub = pub + step()
+            vts.append((vt, lb, ub))
+            continue
+        vt = r.choice(['BINARY', 'SPIN', 'INTEGER', 'INTEGER', 'INTEGER', 'REAL', 'REAL'])
         if vt in ('INTEGER', 'REAL'):
             lb = r.choice([0, 0, -3, 2, -8]) if vt == 'INTEGER' else r.choice([0.0, -1.5, 0.25])
             ub = lb + r.choice([0, 1, 5, 40]) if vt == 'INTEGER' else lb + r.choice([0.0, 0.5, 3.0, 100.0])
@@ -212,6 +226,28 @@ def spec_dqm(r, big=False):
                 offset=r.choice([0.0, dy(r)]))
 
 
+def spec_dqm_large(r):
+    """few variables, MANY cases: the total number of cases sits at the boundary where the index dtype of
+    `to_numpy_vectors` must widen from uint16 to uint32 (65535 / 65536 / 65537 and well beyond), while the number of
+    variables stays tiny.  Linear biases and interactions are sparse and include the very last cases."""
+    total = r.choice([65535, 65536, 65537, 65536 + r.randrange(2, 3000), 80000])
+    n = r.choice([2, 2, 3])
+    cuts = sorted(r.sample(range(1, total), n - 1)) if r.random() < .5 else [total // n * (i + 1) for i in range(n - 1)]
+    cases = [b - a for a, b in zip([0] + cuts, cuts + [total])]
+    labels = pick_labels(r, n, r.choice(['range', 'mixed']))
+    lin = {}
+    for _ in range(6):
+        v = r.randrange(n)
+        lin[(v, r.choice([0, cases[v] - 1, r.randrange(cases[v])]))] = dy(r)
+    quad = {}
+    for _ in range(r.randint(2, 6)):
+        u, v = r.sample(range(n), 2)
+        quad[(u, r.choice([0, cases[u] - 1, r.randrange(cases[u])]), v, r.choice([0, cases[v] - 1, r.randrange(cases[v])]))] = dy(r)
+    quad[(n - 1, cases[n - 1] - 1, 0, cases[0] - 1)] = dy(r)       # the last case of all interacts
+    return dict(kind='dqm', labels=labels, cases=cases, linear_sparse=[k + (b,) for k, b in lin.items()],
+                quad=[k + (b,) for k, b in quad.items()], offset=r.choice([0.0, dy(r)]))
+
+
 SPECS = dict(bqm=spec_bqm, qm=spec_qm, cqm=spec_cqm, dqm=spec_dqm)
 
 
@@ -257,8 +293,10 @@ def emit(spec, name='m'):
         out.append(f"{name} = dimod.DiscreteQuadraticModel()")
         for l, c in zip(L, spec['cases']):
             out.append(f"{name}.add_variable({c}, label={l!r})")
-        for l, lin in zip(L, spec['linear']):
+        for l, lin in zip(L, spec.get('linear', [])):
             out.append(f"{name}.set_linear({l!r}, {lin!r})")
+        for v, c, b in spec.get('linear_sparse', []):
+            out.append(f"{name}.set_linear_case({L[v]!r}, {c}, {b!r})")
         for u, cu, v, cv, b in spec['quad']:
             out.append(f"{name}.set_quadratic_case({L[u]!r}, {cu}, {L[v]!r}, {cv}, {b!r})")
         out.append(f"{name}.offset = {spec['offset']!r}")
